@@ -145,7 +145,7 @@ class Replay:
         kw = {}
         if self.kind == 'remote':
             kw['host'] = self.addr
-        self.w = self.cls()(t.echo_mut if self.mut else t.echo, args=args,
+        self.w = self.cls()(t.echo_slow if self.job.get('slow') else t.echo_mut if self.mut else t.echo, args=args,
                             kwargs={k: self.wrap(v) for k, v in self.job['dkw']},
                             name=self.name, userid='u', results_pipe=self.new_pipe(), **kw)
         self.begin_inc()
@@ -158,7 +158,7 @@ class Replay:
 
     def begin_inc(self):
         w = self.w
-        inc = dict(enq=[], raw=[], late=[], calls=[], first='none', alive0='T' if w.is_alive() else 'F',
+        inc = dict(enq=[], raw=[], late=[], calls=[], bempty=[], first='none', alive0='T' if w.is_alive() else 'F',
                    waited='none', result={'k': 'na', 'n': 0}, fault='none', id=self.idnum(), name=str(w.name),
                    userid=str(w.userid), endk='final', oldos='na', rraised=[])
         self.incs.append(inc)
@@ -282,7 +282,16 @@ class Replay:
                 w.next_result(block=(op == 'nextb'))
                 return 'val'
             except Empty:
+                if op == 'nextb':       # a blocking read that signals the end of the stream
+                    inc['bempty'].append({'nread': sum(1 for m in inc['raw'] if m['f'] == 'T'), 'nenq': len(inc['enq'])})
                 return empty_kind()
+        if op == 'iter':                # results_iter(): blocking reads until the end of the stream is signalled
+            n = sum(1 for _ in w.results_iter())
+            inc['bempty'].append({'nread': sum(1 for m in inc['raw'] if m['f'] == 'T'), 'nenq': len(inc['enq'])})
+            return 'vals:%d' % n
+        if op == 'waitS':               # wait(timeout) that is too short for the work still queued
+            self.late = True
+            return 'T' if w.wait(timeout=0.05) else 'F'
         if op == 'call':
             it = self.item()
             nread = sum(1 for m in inc['raw'] if m['f'] == 'T')
@@ -669,7 +678,11 @@ def model_check(ev, prop, tier):
         ev.add_tlc('liveness: every blocked call of an enabled history returns', rl)
         if rl.error:
             raise MachineryError('liveness Live_Returns fails in the model: %s' % rl.error)
-        for w in ('W_NoFullStream', 'W_NoLate', 'W_NoCleanCall', 'W_NoLongerArgs'):
+        rb = tlc.run('PersistentMC', cfg_text=_cfg('Persistent_mc.cfg', BlockAfterClose='FALSE'), name='blockafterclose', must_complete=False)
+        if rb.error != 'invariant:Inv_C05_End':
+            raise MachineryError('non-blocking read of a closed but still working worker is not rejected by the model checker: %s' % rb.error)
+        wit['variant_BlockAfterClose_FALSE'] = rb.error
+        for w in ('W_NoFullStream', 'W_NoLate', 'W_NoCleanCall', 'W_NoLongerArgs', 'W_NoBlockingReadAfterClose'):
             rw = tlc.run('PersistentMC', cfg_text=_cfg('Persistent_mc.cfg', inv=[w]), name=w, must_complete=False)
             if rw.error != 'invariant:' + w:
                 raise MachineryError('witness %s not reachable (vacuous model): %s' % (w, rw.error))
@@ -827,6 +840,20 @@ def run(prop, tier, replay=None):
         for ops_ in rng.sample(eager, min(len(eager), 400 if quick else 1500)):
             add(rng.choice(['thread', 'thread', 'process', 'remote']) if not quick or rng.random() < 0.25 else 'thread',
                 [[o, '?', 'F', 'idle', 0] for o in ops_], mode='eager')
+        # forced: blocking reads issued right after close() / a timed-out wait() while a slow target still owes results
+        # (un-settled; the model step is NextEnd with closed = TRUE: it returns the next value, never the end)
+        nforced = 0
+        for kind in KINDS:
+            for ops_ in (['enq', 'close', 'nextb'], ['enq', 'enq', 'close', 'nextb', 'nextb', 'nextb'],
+                         ['enq', 'enq', 'close', 'iter'], ['enq', 'waitS', 'nextb', 'nextb'], ['enq', 'enq', 'waitS', 'iter']):
+                for _ in range(1 if quick else 4):
+                    j = add(kind, [[o, '?', 'F', 'idle', 0] for o in ops_], mode='eager')
+                    j['slow'], j['mut'], j['forced'] = True, False, True
+                    for it in j['items']:
+                        if it['a'] and it['a'][0].startswith('@'):
+                            it['a'][0] = 'x'
+                    nforced += 1
+        ev.cov['forced_blocking_reads_after_close'] = nforced
     else:
         n_exh = 0
         for kset, kinds in (('K_thread', ['thread']), ('K_proc', ['process']), ('K_remote', ['remote'])):
@@ -897,7 +924,11 @@ def run(prop, tier, replay=None):
         exp = expect[rid]
         nconf += 1
         if j['mode'] == 'eager':
-            ok = tuple(r['outs']) in allowed[tuple(s[0] for s in j['hist'])]
+            key = tuple(s[0] for s in j['hist'])
+            if key not in allowed:          # forced scenarios with operations outside the dumped alphabet: judged only
+                nconf -= 1
+                continue
+            ok = tuple(r['outs']) in allowed[key]
         else:
             ok = r['outs'] == exp and r['finished']
         hard = [n for n in r['notes'] if n.startswith('hang') or n.startswith('aborted')]
